@@ -1,6 +1,7 @@
 package props
 
 import (
+	"encoding/json"
 	"math/big"
 
 	"github.com/libsv/go-bt/v2"
@@ -53,6 +54,23 @@ func (q quote) libForm(form int) *bt.FeeQuote {
 		cp.MiningFee, cp.RelayFee = data.MiningFee, data.RelayFee
 		fq.AddQuote(bt.FeeTypeStandard, got)
 		fq.AddQuote(bt.FeeTypeData, &cp)
+		return fq
+	case 7, 8:
+		// an existing quote object (fresh defaults / filled with other rates through AddQuote) is
+		// refreshed from a JSON document carrying the wanted rates: afterwards it IS that quote
+		doc, err := json.Marshal(q.lib())
+		if err != nil {
+			return q.lib()
+		}
+		fq := bt.NewFeeQuote()
+		if form == 8 {
+			fq.AddQuote(bt.FeeTypeStandard, &bt.Fee{FeeType: bt.FeeTypeStandard, MiningFee: bt.FeeUnit{Satoshis: 977, Bytes: 3}, RelayFee: bt.FeeUnit{Satoshis: 977, Bytes: 3}})
+			fq.AddQuote(bt.FeeTypeData, &bt.Fee{FeeType: bt.FeeTypeData, MiningFee: bt.FeeUnit{Satoshis: 13, Bytes: 7}, RelayFee: bt.FeeUnit{Satoshis: 13, Bytes: 7}})
+			_, _ = fq.Fee(bt.FeeTypeStandard)
+		}
+		if err := json.Unmarshal(doc, fq); err != nil {
+			return q.lib()
+		}
 		return fq
 	case 6:
 		// another default quote's Fee objects are modified in place by their owner; for the
